@@ -1,15 +1,9 @@
 import Driver.Common
 import QlibcModel.Tree.Table
+import QlibcModel.Tree.ByteCmp
 open Qlibc Qlibc.Tree
 
 namespace Driver.Tree
-
-/-- `qtreetbl_byte_cmp`: memcmp on the common prefix, then the lengths -/
-def byteCmp : Bytes → Bytes → Ordering
-  | [], [] => .eq
-  | [], _ :: _ => .lt
-  | _ :: _, [] => .gt
-  | x :: xs, y :: ys => if x < y then .lt else if x > y then .gt else byteCmp xs ys
 
 def lower (c : UInt8) : UInt8 := if 65 ≤ c && c ≤ 90 then c + 32 else c
 
